@@ -28,7 +28,9 @@ Definition upd_starts (o : op) (starts : list (Z * Z)) : list (Z * Z) :=
 (* result: (step, tag); tag 27 = the change is illegal only as the known
    finding F27 describes (reorg truncated at the next checkpoint).
    A message is judged on the implementation's own chain before it:
-   - the change must be legal (classify);
+   - the change must be legal (classify), and if accepted headers were
+     replaced, the branch OFFERED by the message must be valid and match
+     every checkpoint (reorg_conditions_b, C02_monitor_reorg_conditions);
    - a fully valid batch extending the tip must be adopted (must_adopt);
    - a fully valid, strictly heavier branch forking at or above the newest
      reached checkpoint from a peer the handler listens to must be adopted
@@ -58,7 +60,7 @@ Fixpoint first_bad (P : params) (tbl : list header) (prev : list Z)
                             | None => true
                             end
                           else true in
-          if negb (adopt_ok && reorg_ok) then 1
+          if negb (adopt_ok && reorg_ok && reorg_conditions_b P now before after msg) then 1
           else if legal (classify P before after msg) then 0
           else if reorg_truncated_atb P now before after msg then 27 else 1
         | OHeadersF _ _ _ _ => 0
